@@ -748,17 +748,16 @@ func ruleTabAttrs(c *Ctx) {
 		return
 	}
 	// prefix table
-	prefix := map[string]string{}
-	if m, v, _ := c.mapTable("chord", "map[note.DegreeName]string", "genAttrDegreeNamePrefix"); m != nil {
-		for _, e := range m.Entries {
-			s, _ := asStr(e.V)
-			k := e.K.vstr()
-			prefix[k] = s
-			q, known := degreeNameQuality[k]
-			c.check(known && qualityNames[q] == s, "chord."+v.Name()+"|"+k, c.pos(e.Pos), "", k+" -> "+s, fmt.Sprintf("generated attribute names for %s start with %q, want %q", k, s, qualityNames[q]))
-		}
-	} else {
+	// prefix per quality: whatever GenerateAttributes uses to name an attribute (a table or a function), folded on every quality
+	prefix, ppos, how := c.attrNamePrefixes()
+	if prefix == nil {
+		c.undec("chord.GenerateAttributes|prefix", ppos, "chord.GenerateAttributes", how)
 		return
+	}
+	for _, k := range sortedKeys(prefix) {
+		s := prefix[k]
+		q, known := degreeNameQuality[k]
+		c.check(known && qualityNames[q] == s, "chord.GenerateAttributes|prefix|"+k, ppos, "", k+" -> "+s+" ("+how+")", fmt.Sprintf("generated attribute names for %s start with %q, want %q", k, s, qualityNames[q]))
 	}
 	// independent generator
 	type gen struct{ name, degree string }
@@ -1877,3 +1876,76 @@ func variadicConsts(v ssa.Value) ([]int64, bool) {
 }
 
 var _ = packages.NeedName
+
+
+// attrNamePrefixes evaluates, for every note.DegreeName constant, the name prefix chord.GenerateAttributes gives to
+// attributes of that quality: the (prefix, ok) source feeding its Sprintf("%s%d", ...) is either a lookup in an immutable
+// table or a call of a repo function of the quality; both are folded on each constant. Qualities without a prefix are absent.
+func (c *Ctx) attrNamePrefixes() (map[string]string, string, string) {
+	fn := c.fn("chord", "GenerateAttributes")
+	if fn == nil {
+		return nil, "", "chord.GenerateAttributes not found"
+	}
+	pos := c.pos(fn.Pos())
+	var src ssa.Value
+	for _, f := range withClosures(fn) {
+		for _, ci := range callsTo(f, "fmt.Sprintf") {
+			if s, ok := constString(ci.Common().Args[0]); ok && s == "%s%d" {
+				vals := variadicValues(ci.Common().Args[1])
+				if len(vals) == 2 {
+					if ex, ok := stripConv(vals[0]).(*ssa.Extract); ok && ex.Index == 0 {
+						src = ex.Tuple
+					}
+				}
+			}
+		}
+	}
+	if src == nil {
+		return nil, pos, "the prefix of fmt.Sprintf(\"%s%d\", prefix, number) is not result #0 of a table lookup or of a function of the quality"
+	}
+	enum := c.enumConsts("note", "DegreeName")
+	out := map[string]string{}
+	how := ""
+	for name, k := range enum {
+		var r fval
+		kv := fval{k: constant.MakeInt64(k)}
+		switch x := src.(type) {
+		case *ssa.Lookup:
+			ld, ok := x.X.(*ssa.UnOp)
+			if !ok {
+				return nil, pos, "the prefix table is not a package-level variable"
+			}
+			g, ok := ld.X.(*ssa.Global)
+			if !ok {
+				return nil, pos, "the prefix table is not a package-level variable"
+			}
+			how = "table " + g.Name()
+			r = foldLookup(x, c.globalTable(g), kv)
+		case *ssa.Call:
+			callee := staticCallee(&x.Call)
+			if callee == nil || !c.isRepoFunc(callee) || len(callee.Params) != 1 {
+				return nil, pos, "the prefix does not come from a repo function of the quality"
+			}
+			how = "function " + fname(callee)
+			kv.t = callee.Params[0].Type()
+			var err error
+			r, err = c.newFolder().foldCall(callee, []fval{kv})
+			if err != nil {
+				return nil, pos, fmt.Sprintf("%s does not fold for %s: %v", fname(callee), name, err)
+			}
+		default:
+			return nil, pos, "unrecognised source of the attribute name prefix"
+		}
+		if len(r.tuple) != 2 || r.tuple[1].k == nil || r.tuple[1].k.Kind() != constant.Bool {
+			return nil, pos, "the prefix source does not fold to (string, bool) for " + name
+		}
+		if !constant.BoolVal(r.tuple[1].k) {
+			continue
+		}
+		if r.tuple[0].k == nil || r.tuple[0].k.Kind() != constant.String {
+			return nil, pos, "the prefix for " + name + " is not a constant string"
+		}
+		out[name] = constant.StringVal(r.tuple[0].k)
+	}
+	return out, pos, how
+}
